@@ -5,6 +5,7 @@ package main
 import (
 	"fmt"
 	"go/token"
+	"go/types"
 	"sort"
 	"strings"
 
@@ -13,9 +14,9 @@ import (
 
 func init() {
 	register(&propDef{
-		id: "C07",
+		id:      "C07",
 		explain: "Structural necessary conditions of 'configured size limits bound what is buffered': (E6) limit-flow: starting from the fields Server.MaxRequestBodySize / HostClient.MaxResponseBodySize / RequestConfig.MaxRequestBodySize and the limit parameters of the exported *WithLimit / ReadLimitBody / ContinueReadBody entry points, every module function parameter that receives a limit is found by propagation through static calls; each such function either compares the limit in a branch condition, stores it into the N of an io.LimitedReader, or forwards it to a callee that itself does - a function that receives a limit and drops it is a violation; every function that compares a limit has a return of ErrBodyTooLarge (or of an error wrapping it) control-dependent on such a comparison; (R-default) in the serve loop the value handed to the body readers is, on every path of every iteration, the per-request override, the server limit, or the default - a value set while serving an earlier request is never read for a later one - and the connection-level value replaces a non-positive server limit by the default before the loop; (R-431) the default error handler answers 431 for a too-small read buffer, and the error response path sets Connection: close. Not decided: the numeric peak of buffered bytes; streamed bodies (unlimited by design).",
-		run: runC07,
+		run:     runC07,
 	})
 }
 
@@ -141,6 +142,7 @@ func runC07(p *Prog, r *Report) {
 	}
 	r.Floor("E6", "limit-receiving parameters", len(lims), 25)
 	type use struct{ compares, limitedReader, forwards, returnsTooLarge bool }
+	norder := 0
 	var keys []limParam
 	for k := range lims {
 		keys = append(keys, k)
@@ -233,8 +235,86 @@ func runC07(p *Prog, r *Report) {
 			}
 			r.Check("E6", name+": exceeding the limit is reported as ErrBodyTooLarge", found, p.Pos(k.fn.Pos()),
 				"the function tests the limit but no return carries ErrBodyTooLarge: an oversized body would be truncated or accepted silently")
+			// R-order: in a function that itself rejects oversized input, nothing is buffered from the reader before the
+			// limit was used on that path. A buffering consumer is a call that is handed the reader and gives back data
+			// (a slice, a form, an object) rather than a scalar or just an error.
+			if found && !u.forwards || found && u.compares {
+				var rd *ssa.Parameter
+				for _, prm2 := range k.fn.Params {
+					ts := prm2.Type().String()
+					if strings.HasSuffix(ts, "bufio.Reader") || ts == "io.Reader" {
+						rd = prm2
+					}
+				}
+				if rd != nil {
+					limitUse := func(i ssa.Instruction) bool {
+						switch w := i.(type) {
+						case *ssa.If:
+							for _, cc := range cmpConds {
+								if w.Cond == cc {
+									return true
+								}
+							}
+						case ssa.CallInstruction:
+							for _, a := range w.Common().Args {
+								if derivesFromParam(a, prm) {
+									return true
+								}
+							}
+						}
+						return false
+					}
+					for _, b := range k.fn.Blocks {
+						for _, in := range b.Instrs {
+							c, ok := in.(*ssa.Call)
+							if !ok {
+								continue
+							}
+							usesReader := false
+							for _, a := range c.Call.Args {
+								if mi, ok := a.(*ssa.MakeInterface); ok {
+									a = mi.X
+								}
+								if a == ssa.Value(rd) {
+									usesReader = true
+								}
+							}
+							if !usesReader || limitUse(in) {
+								continue
+							}
+							buffers := false
+							var rts []types.Type
+							if tup, ok := c.Type().(*types.Tuple); ok {
+								for i := 0; i < tup.Len(); i++ {
+									rts = append(rts, tup.At(i).Type())
+								}
+							} else {
+								rts = append(rts, c.Type())
+							}
+							for _, rt := range rts {
+								switch rt.Underlying().(type) {
+								case *types.Slice, *types.Pointer, *types.Map:
+									buffers = true
+								case *types.Interface:
+									if !strings.HasSuffix(rt.String(), "error") {
+										buffers = true
+									}
+								}
+							}
+							if !buffers {
+								continue
+							}
+							norder++
+							hit, path := reachAvoiding(k.fn, nil, func(i ssa.Instruction) bool { return i == ssa.Instruction(c) }, limitUse, nil)
+							r.Check("R-order", fmt.Sprintf("%s: %s buffers from the reader only after the limit %s was used on that path", funcName(k.fn), shortType(calleeName(c)), k.fn.Params[k.idx].Name()), hit == nil, p.Pos(c.Pos()),
+								"a call that reads and keeps data from the connection is reachable before any comparison with (or hand-over of) the size limit: on that path an oversized body is consumed and buffered, not rejected", blocksString(p, path)...)
+						}
+					}
+				}
+			}
 		}
 	}
+	r.Floor("R-order", "buffering reads in limit-rejecting functions that do not receive the limit themselves", norder, 1)
 
 	// ---- R-default ----
 	res := p.serveLoop("C07")
